@@ -376,11 +376,17 @@ func runC07(h *H) {
 			for _, procs := range procsList {
 				runtime.GOMAXPROCS(procs)
 				for kk := 1; kk <= polls+2; kk += stride {
-					for r := 0; r < reps/40+1; r++ {
+					for r := 0; r < reps/40+2; r++ {
 						ctx := newCountingCtx(kk)
 						resultIn := &sparse.Vector{Dim: n, Entries: []sparse.Entry{{Index: 0, Value: 42}}}
+						callOpts := append([]basic.ComputeOpt{}, opts...)
+						if r%2 == 1 {
+							// the same vector as initial trust AND result destination (as gRPC BasicCompute does)
+							resultIn = cloneVec(p)
+							callOpts = append(callOpts, basic.WithInitialTrust(resultIn))
+						}
 						before := cloneVec(resultIn)
-						t, err := basic.Compute(ctx, c, p, a, e, append(opts, basic.WithResultIn(resultIn))...)
+						t, err := basic.Compute(ctx, c, p, a, e, append(callOpts, basic.WithResultIn(resultIn))...)
 						var got *sparse.Vector
 						if err == nil {
 							got = t
